@@ -6,5 +6,6 @@ NoneLen = 2
 PairAll = TRUE
 PairHostile = 2
 PartnerAll = TRUE
+LetterLen = 3
 INIT GenInit
 NEXT GenNext
